@@ -65,12 +65,15 @@ impl Rng {
 pub struct Trace {
     w: BufWriter<File>,
     pub n: u64,
+    /// write every event through at once (VH_FLUSH=1): the driver then knows which step killed the process
+    pub autoflush: bool,
 }
 impl Trace {
     pub fn create(path: &str) -> Self {
         Trace {
             w: BufWriter::new(File::create(path).expect("create trace")),
             n: 0,
+            autoflush: std::env::var("VH_FLUSH").is_ok(),
         }
     }
     pub fn emit(&mut self, mut v: Value) {
@@ -82,6 +85,9 @@ impl Trace {
         serde_json::to_writer(&mut self.w, &v).unwrap();
         self.w.write_all(b"\n").unwrap();
         self.n += 1;
+        if self.autoflush {
+            self.w.flush().unwrap();
+        }
     }
     pub fn flush(&mut self) {
         self.w.flush().unwrap();
@@ -279,6 +285,26 @@ pub fn raw_recv(
 pub fn raw_drain(sock: &UnixStream) -> (Vec<(Vec<u8>, Vec<RawFd>)>, bool) {
     let mut chunks = Vec::new();
     let mut eof = false;
+    // sender engine: read the stream with the granularity it was written in, so that the offset at which
+    // descriptors arrive is exact (one recvmsg never crosses the boundary between two transferred parts)
+    if let Some(sizes) = crate::eng_sender::drain_sizes_for(sock) {
+        for sz in sizes {
+            let mut left = sz;
+            while left > 0 {
+                let mut buf = vec![0u8; left];
+                match raw_recv(sock, &mut buf, libc::MSG_DONTWAIT) {
+                    Ok((0, _)) | Err(_) => {
+                        left = 0;
+                    }
+                    Ok((n, fds)) => {
+                        buf.truncate(n);
+                        chunks.push((buf, fds));
+                        left -= n;
+                    }
+                }
+            }
+        }
+    }
     loop {
         let mut buf = vec![0u8; 70000];
         match raw_recv(sock, &mut buf, libc::MSG_DONTWAIT) {
@@ -406,4 +432,11 @@ impl FdWatch {
         }
         json!({"ev": "teardown", "leaked": leaked, "nleaked": leaked.len(), "lost": b, "nlost": b.len()})
     }
+}
+
+/// Panics of any thread of the process (daemon thread, workers, callers): recorded as data.
+pub static PANICS: std::sync::Mutex<Vec<String>> = std::sync::Mutex::new(Vec::new());
+
+pub fn take_panics() -> Vec<String> {
+    std::mem::take(&mut *PANICS.lock().unwrap_or_else(|e| e.into_inner()))
 }
